@@ -90,7 +90,9 @@ func (self *Interpreter) callFunc(span errors.Span, val value.Value, args []ast.
 		}
 
 		// push a scope into the closure
-		closure.Scopes = append(closure.Scopes, make(map[string]*value.Value))
+		// (the closure's scopes share their backing array with the scopes of the block which created it:
+		// appending in place would overwrite a scope which the caller has pushed in the meantime)
+		closure.Scopes = append(closure.Scopes[:len(closure.Scopes):len(closure.Scopes)], make(map[string]*value.Value))
 		self.callStackSize++
 
 		// use the closure's scopes as the scopes of the current module
